@@ -27,7 +27,9 @@ def install(it):
             it.trace.append(('dump',) + tuple(args))
             ext_fail('dump')
             return None
-        raise Unsupported('external call %s' % name)
+        # any other external call (e.g. a shared pickle.Pickler): recorded as an event and judged by the trace obligations
+        it.trace.append(('other:' + name,) + tuple(args))
+        return Opaque('external-result', name)
     it.opaque_hook = hook
     src = Opaque('source', 'source')
     it.summaries['petl.io.sources.write_source_from_arg'] = lambda interp, args, kw, node: src
